@@ -22,6 +22,6 @@ for p in "$@"; do
   RC=$?
   echo "CHECK $p exit=$RC"
   grep -E '^(deductive:|bounded:)' "$D/$p.log" | cut -c1-300
-  grep -E '^VIOLATION' -A1 "$D/$p.log" | head -6 | cut -c1-500
+  grep -E '^VIOLATION' -A1 "$D/$p.log" | grep -v '^--' | head -16 | cut -c1-400
   grep -E 'CHECKER-ERROR' "$D/$p.log" | head -3 | cut -c1-300
 done
